@@ -1002,3 +1002,46 @@ def total_problem(S, val):
     if r is not True:
         return "validate_or_fail did not return True"
     return ""
+
+
+# --------------------------------------------------------------------------- C10: declarations
+
+ARG_MENU = (..., Nil, [], {}, schema.int, Opaque(), (1,), b"x")
+REGEX_MENU = ("a", "^b+$", "[0-9]", "(", "", "a{2,1}")
+STRVAL_MENU = ("", "a", "ab", "b\n", "0")
+LIST_MENU = (
+    ([], []), ([schema.int(1)], [1]), ([schema.int(1), schema.str("a")], [1, "a"]),
+    ([..., schema.int(1)], None), ([schema.int(1), ...], None), ([..., schema.int(1), ...], None),
+    ([...], None), ([..., ...], None), ([schema.int, 5], None), ([schema.int, ..., schema.int], None),
+    (schema.int, None), (schema.list([schema.none]), None), (5, None), (None, None), ({}, None), (..., None),
+    ((schema.int,), None),
+)
+DICT_MENU = ({}, {"a": schema.int}, {optional("a"): schema.int(1), ...: ...}, {...: schema.int}, {"a": ...},
+             {"a": 5}, {optional("a"): 5}, {1: schema.none, (1, 2): schema.none}, [], None, 5, schema.int, ...)
+ANY_MENU = ((schema.int,), (schema.int, schema.str), (5,), (schema.any(schema.int), schema.none), (schema.int, None),
+            (...,), (schema.any,), ([schema.int],))
+
+
+def props_fp(s):
+    """Fingerprint of a schema's registry: key set and identity of every value."""
+    reg = s.props._registry
+    return [(k, id(reg[k])) for k in reg]
+
+
+def arg_of(sym, m, menu=ARG_MENU):
+    """The m-th menu member when m is a menu index, else the symbolic scalar (strings/bytes <= 2)."""
+    for j in range(len(menu)):
+        if m == j:
+            return menu[j]
+    if isinstance(sym, (str, bytes)) and len(sym) > 2:
+        raise IgnoreAttempt("string bound")
+    return sym
+
+
+def bi(b, f):
+    """An int-typed argument: the symbolic int b, or a bool (bools are ints) when f is 1 / 2."""
+    if f == 1:
+        return True
+    if f == 2:
+        return False
+    return b
